@@ -742,6 +742,10 @@ func (db *RockDB) SetRange(ts int64, rawKey []byte, offset int, value []byte) (i
 }
 
 func getRange(start int64, end int64, valLen int64) (int64, int64) {
+	if start < 0 && end < 0 && start > end {
+		// as redis: an inverted range of two negative indexes is empty, it is not clamped to [0,0]
+		return 1, 0
+	}
 	if start < 0 {
 		start = valLen + start
 	}
